@@ -50,5 +50,5 @@ def run(ctx):
         "byte fidelity is abstracted by the Go driver: the encrypted header is treated as an ideal AEAD message (auth = the bytes in front of the length field are byte-identical to a message sealed under the key; checked by byte comparison against every sealed message the driver or the Packer produced), blob ids are tokens (position in the case), the length-field value is clamped to 2^30",
         "the header the Packer wrote is decoded by the driver's own decoder of the documented layout (independent of pack.List); hand-built headers use the driver's own encoder",
         "left open by the statement and accepted either way: packs without entries, headers above pack.MaxHeaderSize, authentic well-formed headers whose lengths do not add up to the blob area (if listed, the listing must still be exact)",
-        "entry lengths in hand-built headers stay below 2^26 (TLC integers are 32 bit)",
+        "entry lengths stay below 2^26 and uncompressed lengths below 2^24 (TLC integers are 32 bit)",
     ])
